@@ -314,9 +314,10 @@ def select (ks : List KeyRec) (useAll : Bool) (need : Nat) : List Coin â†’ Nat â
         let r := select ks useAll need cs sofar'
         { r with picked := c :: r.picked }
 
-/-- `btc.WritePutLen` (note: `<=` OP_PUSHDATA1 as in the source) -/
+/-- `btc.WritePutLen` (`<` OP_PUSHDATA1 since the fix: 76 bytes are pushed with OP_PUSHDATA1; before it the source had
+    `<=` and a 76-byte `-msg` gave the malformed script `6a 4c <76 bytes>`) -/
 def writePutLen (n : Nat) : Bytes :=
-  if n â‰¤ 0x4c then [UInt8.ofNat n]
+  if n < 0x4c then [UInt8.ofNat n]
   else if n < 0x100 then [0x4c, UInt8.ofNat n]
   else if n < 0x10000 then 0x4d :: leBytes 2 n
   else 0x4e :: leBytes 4 n
